@@ -371,6 +371,14 @@ def cases(tier: str) -> List[Dict[str, Any]]:
     for tc in (False, True):
         for seq in itertools.product(("good", "unsub", "larger", "signal"), repeat=3):
             out.append(dict(tc=tc, kinds=list(seq), timeout=0.1, ack=False, sync=False, init="all"))
+    # discard_messages() while the tail of a frame is still on its way (cut at every offset)
+    for tc in (False, True):
+        flen = len(mk("good", tc, 1))
+        for cut in range(0, flen + 1):
+            for bad_b in (False, True):
+                if tier == "quick" and tc and bad_b:
+                    continue
+                out.append(dict(family="discard", tc=tc, cut=cut, sync=bool(cut % 2), bad_b=bad_b, kinds=["discard", str(cut), str(bad_b)]))
     # the same Client object on a second connection; a type redefined between reads
     for tc in (False, True):
         for init in ("none", "subs", "all", "paused"):
@@ -450,6 +458,8 @@ def reconnect_case(case) -> Dict[str, Any]:
                     got.append(m.header.msg_type)
             if got != [U8]:
                 probs.append({"kind": "read-after-reconnect", "expected": [U8], "got": got})
+    except N.WouldBlock as e:
+        probs.append({"kind": "reconnect-read-blocks", "exc": str(e)[:120]})
     except Exception as e:
         probs.append({"kind": "reconnect-raised", "exc": f"{type(e).__name__}: {str(e)[:120]}"})
     finally:
@@ -486,6 +496,8 @@ def redefine_case(case) -> Dict[str, Any]:
         try:
             m = c.read_message(timeout=0, sync_check=sync)
             return ("none",) if m is None else ("msg", len(bytes(m.data)))
+        except N.WouldBlock:
+            return ("block",)
         except CL.InvalidMessageDefinition:
             return ("exc", "InvalidMessageDefinition")
         except Exception as e:
@@ -520,9 +532,90 @@ def redefine_case(case) -> Dict[str, Any]:
     return {"problems": probs, "calls": calls, "sig": ("redefine", case["lookup_first"], len(probs))}
 
 
+def discard_case(case) -> Dict[str, Any]:
+    """discard_messages() is called while the tail of a frame is still on its way: whatever it throws away, it throws away whole
+    frames - every later read returns one of the sent frames intact, in order, and the frame sent afterwards comes out"""
+    import pyrtma.client as CL
+
+    tc, cut, sync = case["tc"], case["cut"], case["sync"]
+    ensure_defs()
+    mmx.fresh_gc()
+    sp = clx.ScriptedPeer(timecode=tc)
+    c = sp.client
+    probs: List[Dict[str, Any]] = []
+    calls = 0
+    fa, fb, fc, fd = mk("good", tc, 0), mk("larger" if case.get("bad_b") else "good", tc, 1), mk("good", tc, 2), mk("good", tc, 3)
+    sent = [fa, fb, fc, fd]
+    fed = {"n": 0}
+
+    def pump():
+        # the rest of frame B and all of frame C arrive as soon as the client has to wait
+        if fed["n"] == 0:
+            fed["n"] = 1
+            sp.feed(fb[cut:] + fc)
+            return True
+        return False
+
+    try:
+        with warnings.catch_warnings():
+            warnings.simplefilter("ignore")
+            c.subscribe([S8])
+            sp.feed(fa + fb[:cut])
+            sp.net.cli_pump = pump
+            try:
+                c.discard_messages()
+            except (CL.InvalidMessageDefinition, CL.UnknownMessageType):
+                pass  # an undecodable frame among the discarded ones may be reported
+            except N.WouldBlock:
+                pass
+            if fed["n"] == 0:
+                pump()
+            sp.feed(fd)
+            pos = 0
+            for _ in range(8):
+                calls += 1
+                try:
+                    m = c.read_message(timeout=0.1, sync_check=sync)
+                except CL.InvalidMessageDefinition:
+                    if case.get("bad_b"):
+                        continue
+                    probs.append({"kind": "discard-leaves-a-broken-stream", "cut": cut, "exc": "InvalidMessageDefinition"})
+                    break
+                except N.WouldBlock:
+                    probs.append({"kind": "discard-leaves-a-broken-stream", "cut": cut, "exc": "read would block forever"})
+                    break
+                except Exception as e:
+                    probs.append({"kind": "discard-leaves-a-broken-stream", "cut": cut, "exc": f"{type(e).__name__}: {str(e)[:80]}"})
+                    break
+                if m is None:
+                    break
+                hs = P.hstruct(tc)
+
+                def key(b):  # a frame without the receive time stamp the client fills in
+                    h = hs.unpack(b[:hs.size])
+                    return (h[:3] + h[4:], b[hs.size:])
+
+                wire = key(bytes(m.header) + bytes(m.data))
+                while pos < len(sent) and key(sent[pos]) != wire:
+                    pos += 1
+                if pos == len(sent):
+                    probs.append({"kind": "discard-leaves-a-broken-stream", "cut": cut, "returned_frame_was_never_sent": bytes(m.header)[:16].hex()})
+                    break
+                pos += 1
+            if not probs and pos < len(sent):
+                probs.append({"kind": "frame-after-discard-not-returned", "cut": cut, "returned_up_to": pos})
+    finally:
+        sp.net.cli_pump = None
+        sp.close()
+    return {"problems": probs, "calls": calls, "sig": ("discard", cut, len(probs))}
+
+
 def run_chunk(cs):
     out = []
     for c in cs:
+        if c.get("family") == "discard":
+            out.append(discard_case(c))
+            continue
         if c.get("family") == "reconnect":
             out.append(reconnect_case(c))
         elif c.get("family") == "redefine":
